@@ -288,6 +288,39 @@ fn compute_distance(d_numer: f64, d_denom: f64) -> f64 {
     }
 }
 
+// ---- verification wrappers (pure additions; compiled only under the verif cfg)
+#[cfg(dandavison_delta_verif)]
+pub fn verif_tokenize<'a>(line: &'a str, regex: &Regex) -> Vec<&'a str> {
+    tokenize(line, regex)
+}
+
+/// `annotate` of the alignment of the two tokenized lines, exactly as `infer_edits` calls it.
+#[cfg(dandavison_delta_verif)]
+#[allow(clippy::type_complexity)]
+pub fn verif_annotate<'a, A>(
+    minus_line: &'a str,
+    plus_line: &'a str,
+    regex: &Regex,
+    noop_deletion: A,
+    deletion: A,
+    noop_insertion: A,
+    insertion: A,
+) -> (Vec<(A, &'a str)>, Vec<(A, &'a str)>, f64)
+where
+    A: Copy + PartialEq + std::fmt::Debug,
+{
+    let alignment = align::Alignment::new(tokenize(minus_line, regex), tokenize(plus_line, regex));
+    annotate(
+        alignment,
+        noop_deletion,
+        deletion,
+        noop_insertion,
+        insertion,
+        minus_line,
+        plus_line,
+    )
+}
+
 #[cfg(test)]
 mod tests {
     use super::*;
